@@ -106,6 +106,16 @@ pub fn check(c: &Case) -> R {
     let mut fresh = new_aligner(c);
     let a_fresh = run_call(&mut fresh, &c.call);
     let (v, exh) = check_alignment("fresh aligner", &a_fresh, &c.call, sp)?;
+    // a clone of the aligner (taken after the call above, i.e. with used scratch space) is the same aligner
+    {
+        let mut cl = fresh.clone();
+        let a_cl = run_call(&mut cl, &c.call);
+        ensure!(a_cl == a_fresh, "a clone() of the aligner (scoring {:?}) answers the call {:?} with {:?}, the aligner it was cloned from with {:?}", sp, c.call, a_cl, a_fresh);
+        let mut cf = Aligner::with_scoring(ScoreSpec { sigma: 1, table: vec![1], gap_open: -5, gap_extend: -1, clips: [Some(0), None, Some(-1), None] }.scoring(false));
+        cf.clone_from(&fresh);
+        let a_cf = run_call(&mut cf, &c.call);
+        ensure!(a_cf == a_fresh, "an aligner overwritten by clone_from() (scoring {:?}) answers the call {:?} with {:?}, the aligner it was cloned from with {:?}", sp, c.call, a_cf, a_fresh);
+    }
 
     if !c.history.is_empty() {
         let mut used = new_aligner(c);
